@@ -358,6 +358,18 @@ def run_shard(desc):
         judge([np.array(u) for u in ind.ubis], "repeated-search[reset between]", case2)
     sh.evaluations += 1
     sh.nontrivial += 1
+    # (b1') max_grains smaller than the number of grains in the sample: it limits what ONE ring pair may add, the search over all ring pairs
+    # still reports every grain
+    if ng >= 2:
+        case2 = {"lattice": li, "cell": cell, "sym": sym, "ngrains": ng, "data": "max_grains=%d" % (ng - 1), "seed": seed_of()}
+        ind = indexing.indexer(unitcell=ucm.unitcell(cell, sym), gv=allgv.copy(), cosine_tol=0.002, minpks=int(0.5 * nref), hkl_tol=0.02, ds_tol=0.005,
+                               wavelength=0.3, uniqueness=0.5, max_grains=ng - 1)
+        ind.assigntorings()
+        ind.score_all_pairs()
+        indexing.loglevel = 4
+        judge([np.array(u) for u in ind.ubis], "search[max_grains below the number of grains]", case2)
+        sh.evaluations += 1
+        sh.nontrivial += 1
     # (b2) the notebook driver indexing.do_index: peaks selected by ring (foridx = all rings), orientations generated from all ring pairs,
     # looping over (fraction, hkl_tol) on one indexer; with and without an explicit unitcell object
     import io, contextlib
